@@ -1120,6 +1120,10 @@ class CompositeEnvelope:
         outcomes: Dict["BaseState", int]
         outcomes = {}
 
+        for s in states:
+            if getattr(s, "measured", False):
+                raise ValueError("The state has already been destructively measured")
+
         # Compile the complete list of states
         state_list = list(states)
         if not separate_measurement:
